@@ -50,14 +50,14 @@ def configs_for(entry, tier, rng, small_values=(1, 2, 3, 4, 5), max_alt=None):
     """default configuration + alternative small configurations (admissible ones only).
 
     The alternatives are chosen greedily so that together they cover as many ORDER RELATIONS between pairs of
-    parameters (p_i < p_j, =, >) as possible: amounts that coincide when two periods are equal or ordered one way
+    parameters (p_i far below / one below / equal to / one above / far above p_j) as possible: amounts that coincide when two periods are equal or ordered one way
     are exactly what the default configurations (and the pinned tests) cannot tell apart."""
     k = len(entry["params"])
     cfgs = [list(entry["default"])]
     if k == 0:
         return cfgs
     if max_alt is None:
-        max_alt = 2 if tier == "quick" else 8
+        max_alt = (2 if k == 1 else 3 if k == 2 else 4) if tier == "quick" else 8
     # 5 (not 4) in the quick pool: several buffer sizes only become insufficient from a period difference of 4 on
     pool = [v for v in small_values if v != 4] if tier == "quick" else list(small_values) + [7]
     cands = list(itertools.product(pool, repeat=k)) if len(pool) ** k <= 4096 else \
@@ -72,12 +72,16 @@ def configs_for(entry, tier, rng, small_values=(1, 2, 3, 4, 5), max_alt=None):
         rel = set()
         for i in range(k):
             for j in range(i + 1, k):
-                rel.add((i, j, (c[i] > c[j]) - (c[i] < c[j])))
+                d = c[i] - c[j]
+                # five classes: far below, one below, equal, one above, far above - guards and clamps on a period
+                # difference (lag > 0 written as lag > 1, ...) only show when two periods differ by exactly one
+                rel.add((i, j, 0 if d == 0 else (1 if d > 0 else -1) * (1 if abs(d) == 1 else 2)))
         return rel
     covered = relations(tuple(cfgs[0])) if all(isinstance(x, int) for x in cfgs[0]) else set()
     chosen = []
     while len(chosen) < max_alt and valid:
-        best = max(valid, key=lambda c: (len(relations(c) - covered), len(set(c)), sum(c)))
+        # boundary relations (equal, one apart) first: defaults and the pinned tests mostly sit in the far classes
+        best = max(valid, key=lambda c: (sum(2 if abs(r[2]) <= 1 else 1 for r in relations(c) - covered), max(c) - min(c), len(set(c)), sum(c)))
         if chosen and not (relations(best) - covered):
             # nothing new to cover: fill up with the most varied remaining ones
             best = max(valid, key=lambda c: (len(set(c)), sum(c)))
